@@ -285,6 +285,7 @@ struct Rewriter<'a> {
     uid: String,
     brk_counter: usize,
     synth: Vec<(String, String)>,
+    intoiter_params: Vec<String>,
 }
 
 fn line_of<T: syn::spanned::Spanned>(t: &T) -> usize {
@@ -566,6 +567,22 @@ impl<'a> VisitMut for Rewriter<'a> {
         visit_mut::visit_expr_mut(self, e);
         let line = line_of(e);
         match e {
+            Expr::ForLoop(fl) => {
+                // R26: `for x in <generic IntoIterator parameter>` iterates over the collected items
+                let mut hit: Option<String> = None;
+                if let Expr::Path(p) = &*fl.expr {
+                    if let Some(id) = p.path.get_ident() {
+                        if self.intoiter_params.contains(&id.to_string()) {
+                            hit = Some(id.to_string());
+                        }
+                    }
+                }
+                if let Some(id) = hit {
+                    let inner = fl.expr.clone();
+                    fl.expr = Box::new(parse_quote!(vx_collect_refs(#inner)));
+                    self.logr("R26", line, format!("for-loop over generic IntoIterator parameter `{}` -> vx_collect_refs({})", id, id));
+                }
+            }
             Expr::Macro(em) => {
                 let m = em.mac.clone();
                 if let Some(r) = self.rewrite_macro_expr(&m, line) {
@@ -897,6 +914,54 @@ fn process_fn(
     sig_attr_dummy.retain(|a| !is_doc_or_dropped_attr(a));
     *attrs = sig_attr_dummy;
 
+    let mut intoiter_params: Vec<String> = vec![];
+    // R19: argument-position `impl Trait` -> named generic parameter (so that contracts can name the type)
+    {
+        let mut k = 0usize;
+        let mut new_params: Vec<syn::GenericParam> = vec![];
+        let mut new_lts: Vec<syn::Lifetime> = vec![];
+        for arg in sig.inputs.iter_mut() {
+            if let syn::FnArg::Typed(pt) = arg {
+                if let syn::Type::ImplTrait(it) = &*pt.ty {
+                    let id = syn::Ident::new(&format!("VxI{}", k), proc_macro2::Span::call_site());
+                    k += 1;
+                    // elided lifetimes inside the bounds become fresh named lifetime parameters
+                    struct LtFix { n: usize, names: Vec<syn::Lifetime> }
+                    impl VisitMut for LtFix {
+                        fn visit_type_reference_mut(&mut self, r: &mut syn::TypeReference) {
+                            if r.lifetime.is_none() {
+                                let lt = syn::Lifetime::new(&format!("'vxl{}", self.n), proc_macro2::Span::call_site());
+                                self.n += 1;
+                                self.names.push(lt.clone());
+                                r.lifetime = Some(lt);
+                            }
+                            visit_mut::visit_type_reference_mut(self, r);
+                        }
+                    }
+                    let mut bounds = it.bounds.clone();
+                    let mut lf = LtFix { n: new_lts.len(), names: vec![] };
+                    for b in bounds.iter_mut() {
+                        lf.visit_type_param_bound_mut(b);
+                    }
+                    new_lts.extend(lf.names);
+                    let bounds = &bounds;
+                    new_params.push(parse_quote!(#id: #bounds));
+                    let line = line_of(&*pt.ty);
+                    out.rewrites.push(RewriteLog { rule: "R19".into(), line, detail: format!("argument `impl {}` -> generic {}", norm(&bounds.to_token_stream()), id) });
+                    if norm(&bounds.to_token_stream()).contains("IntoIterator") {
+                        intoiter_params.push(pat_name(&pt.pat));
+                    }
+                    pt.ty = Box::new(parse_quote!(#id));
+                }
+            }
+        }
+        for p in new_params {
+            sig.generics.params.push(p);
+        }
+        for (i, lt) in new_lts.into_iter().enumerate() {
+            sig.generics.params.insert(i, parse_quote!(#lt));
+        }
+    }
     if !unit.no_rewrites {
         let pins_norm: Vec<String> = spec.pins.iter().map(|p| norm_str(&p.original).unwrap_or_default()).collect();
         let mut rw = Rewriter {
@@ -915,8 +980,10 @@ fn process_fn(
             uid: uid.to_string(),
             brk_counter: 0,
             synth: vec![],
+            intoiter_params: vec![],
         };
         let _ = (&rw.fn_marker, rw.brk_counter);
+        rw.intoiter_params = intoiter_params.clone();
         rw.visit_signature_mut(sig);
         rw.visit_block_mut(block);
         for (i, h) in spec.hints.iter().enumerate() {
@@ -939,27 +1006,6 @@ fn process_fn(
         let mut lv = LoopValueRewriter { log: vec![], n: 0, uid: uid.to_string() };
         lv.visit_block_mut(block);
         out.rewrites.extend(lv.log);
-    }
-    // R19: argument-position `impl Trait` -> named generic parameter (so that contracts can name the type)
-    {
-        let mut k = 0usize;
-        let mut new_params: Vec<syn::GenericParam> = vec![];
-        for arg in sig.inputs.iter_mut() {
-            if let syn::FnArg::Typed(pt) = arg {
-                if let syn::Type::ImplTrait(it) = &*pt.ty {
-                    let id = syn::Ident::new(&format!("VxI{}", k), proc_macro2::Span::call_site());
-                    k += 1;
-                    let bounds = &it.bounds;
-                    new_params.push(parse_quote!(#id: #bounds));
-                    let line = line_of(&*pt.ty);
-                    out.rewrites.push(RewriteLog { rule: "R19".into(), line, detail: format!("argument `impl {}` -> generic {}", norm(&bounds.to_token_stream()), id) });
-                    pt.ty = Box::new(parse_quote!(#id));
-                }
-            }
-        }
-        for p in new_params {
-            sig.generics.params.push(p);
-        }
     }
     // R10
     if spec.self_mut {
@@ -1402,6 +1448,7 @@ fn process_unit(job: &Job, ctx: &Ctx, u: &UnitReq, uidx: usize, vac: bool) -> Un
                     uid: String::new(),
                     brk_counter: 0,
             synth: vec![],
+            intoiter_params: vec![],
                 };
                 match &mut it {
                     Item::Struct(s) => { rw.visit_fields_mut(&mut s.fields); rw.visit_generics_mut(&mut s.generics); }
@@ -1590,6 +1637,7 @@ fn process_unit(job: &Job, ctx: &Ctx, u: &UnitReq, uidx: usize, vac: bool) -> Un
                 uid: String::new(),
                 brk_counter: 0,
             synth: vec![],
+            intoiter_params: vec![],
             };
             rw.visit_generics_mut(&mut im.generics);
             rw.visit_type_mut(&mut im.self_ty);
